@@ -125,7 +125,11 @@ def make(cls, max_iter, seed, variant):
     if cls == "GerchbergSaxton":
         Aop = linop.MatMul([n, 1], A.astype(np.complex128))
         yy = np.abs(A @ xt).reshape(n, 1).astype(np.complex128)
-        a = alg.GerchbergSaxton(Aop, yy, np.zeros([n, 1], dtype=np.complex128), max_iter=max_iter, tol=0, lamb=0.1)
+        x0 = np.zeros([n, 1], dtype=np.complex128)
+        if variant % 3 == 1:
+            # start exactly consistent with the magnitudes (|A x0| = y): with a Tikhonov term the update still moves x
+            x0 = xt.reshape(n, 1).astype(np.complex128)
+        a = alg.GerchbergSaxton(Aop, yy, x0, max_iter=max_iter, tol=0, lamb=[0.1, 1.0][(variant // 3) % 2])
         return a, lambda: [a.x], False
     if cls == "FailingAlg":
         class FailingAlg(alg.Alg):
@@ -148,7 +152,7 @@ def make(cls, max_iter, seed, variant):
         return ap, lambda: [ap.x], True
     if cls.startswith("LLS_"):
         solver = cls[4:]
-        kw = dict(max_iter=max_iter, show_pbar=False, tol=0)
+        kw = dict(max_iter=max_iter, show_pbar=(variant % 5 == 4), leave_pbar=False, tol=0)
         if solver == "ConjugateGradient":
             ap = app.LinearLeastSquares(Aop, y1, lamda=0.1 * (variant % 2), solver=solver, **kw)
         elif solver == "GradientMethod":
